@@ -78,6 +78,20 @@ theorem continue_after_restart :
     ∧ (∀ ops : List SecOp, ((ops.foldl Sec.step {}).step .restart).mem = (ops.foldl Sec.step {}).mem) :=
   ⟨fun s h ops => (Hub.C13.id_permanent s h ops).1, fun ops => (Hub.C19.fresh_ids ops).2.1, fun ops => Hub.C16.persist ops⟩
 
+/-- the retry delay survives store + load + verify any number of times: verification scales the
+configured seconds to nanoseconds, the stored form scales back, so the effective delay of the n-th
+incarnation equals that of the first (before the repair of D25 the stored form was the scaled value
+and every incarnation multiplied it by 10⁹ again). -/
+def incarnate (secs : Nat) : Nat → Nat
+  | 0 => secs * 1000000000
+  | n + 1 => (incarnate secs n / 1000000000) * 1000000000
+theorem retry_delay_stable (secs n : Nat) : incarnate secs n = secs * 1000000000 := by
+  induction n with
+  | zero => rfl
+  | succ n ih => simp [incarnate, ih]
+/-- …and within int64 for every configured delay below 292 years, so the Go arithmetic is the Nat arithmetic. -/
+theorem retry_delay_in_range (secs : Nat) (h : secs < 9223372036) : secs * 1000000000 < 2 ^ 63 := by omega
+
 /-! ## tie to the Go source (regenerated facts): what is reloaded on start, what is written through -/
 open Hub.Facts.Restart in
 theorem facts_shape :
@@ -85,7 +99,8 @@ theorem facts_shape :
         "s.GetObject(StoreMetaIndex, \"deleteddatasets\", &s.deletedDatasets)", "s.database.GetSequence(key, numEntities)"]
     ∧ closeReleases = ["s.idseq.Release()", "s.database.Close()"]
     ∧ initLoads = ["serviceCore.loadClients()", "serviceCore.loadAcls()"]
-    ∧ jobWrites = ["AddJob:s.Store.StoreObject(server.JobConfigIndex, jobConfig.ID, jobConfig)"]
+    ∧ jobWrites = ["AddJob:s.Store.StoreObject(server.JobConfigIndex, jobConfig.ID, storedForm(jobConfig))"]
+    ∧ retryDelayScaling = ["30", "int64(time.Second) * eh.RetryDelay", "c.RetryDelay / int64(time.Second)"]
     ∧ jobLoadsOnStart = ["s.loadConfigurations()"]
     ∧ nsWriteThrough = true := by decide
 
